@@ -446,7 +446,12 @@ func genStream(t *rapid.T) streamCase {
 	plan := func(label string) []int {
 		return rapid.SliceOfN(rapid.OneOf(rapid.SampledFrom([]int{0, 1, 1, 2, 7, 8, 15, 16, 17, 24}), rapid.IntRange(0, 64)), 0, 12).Draw(t, label)
 	}
-	c := streamCase{Plain: plainGen(t, 200), Secret: secretGen(t), EncPlan: plan("encPlan"), DecPlan: plan("decPlan"),
+	pl := plainGen(t, 200)
+	if rapid.IntRange(0, 24).Draw(t, "large") == 0 {
+		// around the 32 KiB buffer of io.Copy and beyond
+		pl = g.BytesLen(rapid.SampledFrom([]int{32767, 32768, 32769, 65536, 70001}).Draw(t, "largeLen")).Draw(t, "largePlain")
+	}
+	c := streamCase{Plain: pl, Secret: secretGen(t), EncPlan: plan("encPlan"), DecPlan: plan("decPlan"),
 		EncEOF: rapid.Bool().Draw(t, "encEOF"), DecEOF: rapid.Bool().Draw(t, "decEOF"), StrSecret: rapid.Bool().Draw(t, "strSecret")}
 	if rapid.IntRange(0, 2).Draw(t, "oneByte") == 0 {
 		c.DecPlan = make([]int, len(c.Plain)+16)
@@ -546,6 +551,7 @@ func runStream(c streamCase, r *pb.Rec) error {
 		}
 	}
 	short = short && len(c.DecPlan) > 0 && c.DecPlan[0] < 16
+	r.ClassIf(len(c.Plain) > 32000, "plaintext larger than the copy buffer")
 	r.ClassIf(short, "short header read")
 	r.ClassIf(len(c.DecPlan) > 0 && c.DecPlan[0] == 0, "(0,nil) first read")
 	eofData := c.DecEOF && len(c.Plain) == 0 && (len(c.DecPlan) == 0 || c.DecPlan[0] >= 16)
@@ -676,7 +682,7 @@ func init() {
 	pb.Register("gcm_envelope", pb.Options{Base: 5000, Required: []string{"magic byte flipped", "salt byte flipped", "ciphertext byte flipped", "tag byte flipped", "secret differs", "aad differs", "truncated"},
 		Rule: "GCM round trip and interop with an independent builder; corruption applied at the decoded-byte level (bit flip in magic/salt/ciphertext/tag), different secret, different AAD, truncated hex text, garbage; oracle: decrypt fails for every difference; non-trivial = corruption case"},
 		genGCM, runGCM)
-	pb.Register("stream", pb.Options{Base: 5000, Required: []string{"short header read", "EOF with data", "header arrives with EOF", "(0,nil) first read", "I/O fault during encryption", "I/O fault during decryption"},
+	pb.Register("stream", pb.Options{Base: 5000, Required: []string{"plaintext larger than the copy buffer", "short header read", "EOF with data", "header arrives with EOF", "(0,nil) first read", "I/O fault during encryption", "I/O fault during decryption"},
 		Rule: "EncryptStreamTo/DecryptStreamTo through readers following drawn chunk plans (1-byte reads, 15/16/17-byte first chunk, (0,nil) reads, data+EOF together) and recording writers; injected I/O errors at a drawn byte on each of the four sides; oracles: header+AES-256-CTR reference, round trip equality, fault => error (never a panic), no fault => success; non-trivial = first read < 16 bytes or EOF delivered with data or fault"},
 		genStream, runStream)
 	pb.Register("stream_bad", pb.Options{Base: 3000, Required: []string{"truncated header"},
